@@ -13,6 +13,8 @@ K  translator (coef_tcx selection of the three helpers, read from the source wit
             interpolators1d_* / interpolators2d_* (evaluated at the knots); the model normalises the inputs itself
             (`toArray`, `assignDonor`, `toArrays`) and the (n_e, T_e) sequence seen by the mock rates is compared too
      err    malformed input combinations: model says "raises" <-> the implementation raises
+   A model/implementation difference on fractions is *excused* (counted, not reported as a broken stream) only when the
+   captured lsq_linear call shows that scipy did not return the steady state of the (consistent) matrix it was given.
 S  oracles on the implementation's numbers (no model): fractions in [0,1], sum to one, pair-normalised balance residual
    |f_z S_z - f_(z+1) R_(z+1)| / (S_z + R_(z+1)) with R = alpha + n_D/n_e C for the donor asked for; densities = element
    density x fractions; neutrality; interpolators / equilibrium maps agree with the direct entry points; provider
@@ -61,6 +63,7 @@ class _Env:
         from raysect.core.math.function.float.function2d.autowrap import PythonFunction2D
         from raysect.core.math.function.float import Arg1D, Arg2D
         self.ib = ib
+        install_capture(ib)
         self.elements = [lookup_element(s) for s in SYMBOLS]
         self.deuterium = deuterium
         self.hydrogen = hydrogen
@@ -139,14 +142,21 @@ def _alarm(sig, frm):
 
 
 def guarded(f, *a, **k):
-    """('ok', value) | ('timeout', None) | (exception name, message)"""
+    """('ok', value) | ('timeout-lsq' | 'timeout', None) | (exception name, message).
+    The lsq_linear calls made meanwhile are left in CAP (cleared first)."""
+    del CAP[:]
     old = signal.signal(signal.SIGALRM, _alarm)
     signal.alarm(_LIMIT[0])
     try:
         with contextlib.redirect_stdout(io.StringIO()):      # "Plasma neutrality violated ..." prints of the code under test
             return 'ok', f(*a, **k)
-    except Timeout:
-        return 'timeout', None
+    except Timeout as e:
+        tb, inside = e.__traceback__, False
+        while tb is not None:
+            if '/scipy/optimize/_lsq/' in tb.tb_frame.f_code.co_filename:
+                inside = True
+            tb = tb.tb_next
+        return ('timeout-lsq' if inside else 'timeout'), None
     except Exception as e:  # noqa
         return type(e).__name__, str(e)[:200]
     finally:
@@ -154,27 +164,73 @@ def guarded(f, *a, **k):
         signal.signal(signal.SIGALRM, old)
 
 
-class Capture:
-    """records (matrix, rhs, bounds) of every lsq_linear call made by ionisation_balance (module attribute wrapped
-    in this process only; /repo is not touched)"""
+CAP = []          # (matrix, rhs, bounds, x) of every lsq_linear call of the last guarded() call
 
-    def __init__(self, ib):
-        self.ib = ib
-        self.calls = []
 
-    def __enter__(self):
-        self.orig = self.ib.lsq_linear
+def install_capture(ib):
+    """wrap the module attribute `lsq_linear` of ionisation_balance in this process (observation only; /repo untouched)"""
+    if not hasattr(ib, 'lsq_linear') or ib.lsq_linear is None or getattr(ib.lsq_linear, '_c09_wrapped', False):
+        return          # (a tree that no longer uses lsq_linear: the `mat` stream is then empty, counted as mat-capture-missing)
+    orig = ib.lsq_linear
 
-        def wrap(A, b, *a, **k):
-            self.calls.append((np.array(A, dtype=float), np.array(b, dtype=float), k.get('bounds', a[0] if a else None)))
-            return self.orig(A, b, *a, **k)
+    def wrap(A, b, *a, **k):
+        rec = [np.array(A, dtype=float), np.array(b, dtype=float), k.get('bounds', a[0] if a else None), None]
+        CAP.append(rec)
+        r = orig(A, b, *a, **k)
+        rec[3] = np.array(r['x'], dtype=float)
+        return r
 
-        self.ib.lsq_linear = wrap
-        return self
+    wrap._c09_wrapped = True
+    ib.lsq_linear = wrap
 
-    def __exit__(self, *exc):
-        self.ib.lsq_linear = self.orig
+
+def solver_reference(rec):
+    """steady state of the birth-death matrix that was handed to lsq_linear, from its off-diagonals only (model-free):
+    x_(j+1)/x_j = A[j+1][j] / A[j][j+1], normalised to rhs[-1].  Returns fractions x / rhs[-1] or None."""
+    A, b = rec[0], rec[1]
+    n = A.shape[1]
+    if A.shape[0] != n + 1 or not b[-1] > 0:
+        return None
+    r = [1.0]
+    for j in range(n - 1):
+        if not (A[j + 1][j] > 0 and A[j][j + 1] > 0):
+            return None
+        r.append(r[-1] * (A[j + 1][j] / A[j][j + 1]))
+        m = max(r)
+        r = [x / m for x in r]
+    t = sum(r)
+    ref = [x / t for x in r]
+    # the reference must actually solve the captured system (it does for every consistent birth-death matrix; it does
+    # not when the matrix was filled wrongly, and then nothing is attributed to the solver)
+    x = np.array(ref) * b[-1]
+    res = np.abs(A @ x - b)
+    if not np.all(res <= 1e-9 * (np.abs(A) @ np.abs(x) + np.abs(b))):        # row-wise relative residual
+        return None
+    return ref
+
+
+SIG_NOTERM = 'C09:_fractional_abundance_point:lsq_linear-no-termination'
+SIG_INACC = 'C09:_fractional_abundance_point:lsq_linear-inaccurate'
+
+
+def solver_deviation(rec):
+    """max |x / rhs[-1] - steady state of the captured matrix| for one captured lsq_linear call (None if not applicable)"""
+    if rec is None or rec[3] is None:
+        return None
+    ref = solver_reference(rec)
+    if ref is None:
+        return None
+    return max(abs(x / rec[1][-1] - y) for x, y in zip(rec[3], ref))
+
+
+def solver_at_fault(rec, S, A, C, d, donor):
+    """True when the matrix handed to lsq_linear encodes a balance whose exact solution satisfies the oracle while the
+    vector lsq_linear returned is not that solution: the defect is in the solve, not in the equations"""
+    dev = solver_deviation(rec)
+    if dev is None or dev <= K_TOL:
         return False
+    ref = solver_reference(rec)
+    return len(ref) == len(S) + 1 and not check_fractions(ref, S, A, C, d, donor)
 
 
 # ---------------------------------------------------------------------------------------------------------------
@@ -222,7 +278,8 @@ def gen_point_case(rng, wide=False, Z=None):
         fam = 'loguniform'
     else:
         # ADAS-like: ionisation falls, recombination rises with charge (moderate ratios)
-        g, h = rng.uniform(1.1, 1.6), rng.uniform(1.1, 1.6)
+        # total range of either table kept below ~1.5 decades: lsq_linear is reliable there (the wide stream goes beyond)
+        g, h = 30.0 ** (rng.uniform(0.2, 1.0) / Z), 30.0 ** (rng.uniform(0.2, 1.0) / Z)
         s0, a0, c0 = 10 ** rng.uniform(-15, -13), 10 ** rng.uniform(-17, -15), 10 ** rng.uniform(-16, -14)
         s = [s0 * g ** (-i) * rng.uniform(0.7, 1.4) for i in range(Z)]
         a = [a0 * h ** i * rng.uniform(0.7, 1.4) for i in range(Z)]
@@ -271,18 +328,19 @@ def exec_point(env, case):
               tcx_donor_charge=case['dq'])
     out = {}
     ad = env.Mock(case)
-    with Capture(ib) as cap:
-        st, r = guarded(ib.fractional_abundance, ad, el, case['ne'], case['te'], **kw)
+    st, r = guarded(ib.fractional_abundance, ad, el, case['ne'], case['te'], **kw)
     out['frac'] = (st, _vec(r, case['Z']) if st == 'ok' else r)
-    out['cap'] = cap.calls
+    out['cap'] = list(CAP)
     out['queries'] = list(ad.queries)
     ad = env.Mock(case)
     st, r = guarded(ib.from_elementdensity, ad, el, case['dens'], case['ne'], case['te'], **kw)
     out['fd'] = (st, _vec(r, case['Z']) if st == 'ok' else r)
+    out['cap_fd'] = list(CAP)
     ad = env.Mock(case)
     species = [np.array(x, dtype=float).reshape(-1, 1) for x in case['species']]
     st, r = guarded(ib.match_plasma_neutrality, ad, el, species, case['ne'], case['te'], **kw)
     out['mn'] = (st, _vec(r, case['Z']) if st == 'ok' else r)
+    out['cap_mn'] = list(CAP)
     return out
 
 
@@ -327,31 +385,38 @@ def oracle_point(ctx, case, out, stream):
     d = case['nD'] / case['ne']
     donor = case['donor']
     nprob = 0
-    wide = case.get('family') == 'wide'
 
-    def fail(entry, tag, text):
+    def fail(entry, tag, text, rec=None):
         nonlocal nprob
         nprob += 1
-        if wide and tag in ('balance', 'sum', 'timeout'):
-            sig = 'C09:%s:wide-rate-range:%s' % (entry, 'no-termination' if tag == 'timeout' else 'inaccurate')
+        if tag == 'timeout-lsq':
+            sig = SIG_NOTERM
+        elif tag in ('balance', 'sum', 'total') and solver_at_fault(rec, S, A, C, d, donor):
+            sig = SIG_INACC
+            text += '; the matrix handed to lsq_linear has the right steady state, the returned vector is off by %.3g' % solver_deviation(rec)
         else:
             sig = 'C09:%s:%s' % (entry, tag)
         ctx.count('S-fail:' + sig)
         ctx.fail(sig, '%s (Z=%d, donor=%s, n_e=%.4g, n_D=%.4g, family=%s): %s' % (entry, Z, donor, case['ne'], case['nD'], case.get('family'), text),
                  dict(kind='point', case=case, entry=entry, problem=text))
 
+    def first(key):
+        c = out.get(key) or []
+        return c[0] if len(c) == 1 else None
+
     # ---- fractional_abundance
     st, f = out['frac']
     if st == 'skip':
         pass
-    elif st == 'timeout':
-        fail('fractional_abundance', 'timeout', 'no result within %d s (the backtracking loop of scipy lsq_linear does not terminate)' % out.get('limit', CALL_LIMIT))
+    elif st.startswith('timeout'):
+        fail('fractional_abundance', st, 'no result within %d s%s' % (out.get('limit', CALL_LIMIT),
+             ' (interrupted inside scipy.optimize._lsq: the backtracking loop of lsq_linear does not terminate)' if st == 'timeout-lsq' else ''))
     elif st != 'ok':
         fail('fractional_abundance', 'raised-' + st, str(f))
     else:
         for tag, text in check_fractions(f, S, A, C, d, donor):
             ex = exact_fractions(S, A, C, d if donor else 0.0)
-            fail('fractional_abundance', tag, text + '; max |f - steady state| = %.3g' % max(abs(x - y) for x, y in zip(f, ex)))
+            fail('fractional_abundance', tag, text + '; max |f - steady state| = %.3g' % max(abs(x - y) for x, y in zip(f, ex)), first('cap'))
         # provider wiring
         q = out['queries']
         want = [('ion', z) for z in range(Z)] + [('rec', z) for z in range(1, Z + 1)]
@@ -366,27 +431,29 @@ def oracle_point(ctx, case, out, stream):
     st, n = out['fd']
     if st == 'skip':
         pass
-    elif st == 'timeout':
-        fail('from_elementdensity', 'timeout', 'no result within %d s' % CALL_LIMIT)
+    elif st.startswith('timeout'):
+        fail('from_elementdensity', st, 'no result within %d s' % CALL_LIMIT)
     elif st != 'ok':
         fail('from_elementdensity', 'raised-' + st, str(n))
     else:
         tot = sum(n)
         if not (abs(tot - case['dens']) <= S_TOL * case['dens']) or min(n) < 0:
-            fail('from_elementdensity', 'total', 'densities sum to %r, element density %r, min %r' % (tot, case['dens'], min(n)))
+            fail('from_elementdensity', 'total', 'densities sum to %r, element density %r, min %r' % (tot, case['dens'], min(n)),
+                 first('cap_fd') if min(n) >= 0 else None)
         else:
             for tag, text in check_fractions([x / case['dens'] for x in n], S, A, C, d, donor):
                 if tag == 'range':
                     continue
                 ex = exact_fractions(S, A, C, d if donor else 0.0)
-                fail('from_elementdensity', tag, text + '; max |n/n_el - steady state| = %.3g' % max(abs(x / case['dens'] - y) for x, y in zip(n, ex)))
+                fail('from_elementdensity', tag, text + '; max |n/n_el - steady state| = %.3g' % max(abs(x / case['dens'] - y) for x, y in zip(n, ex)),
+                     first('cap_fd'))
     # ---- match_plasma_neutrality
     st, n = out['mn']
     others = sum(i * v for sp in case['species'] for i, v in enumerate(sp))
     if st == 'skip':
         pass
-    elif st == 'timeout':
-        fail('match_plasma_neutrality', 'timeout', 'no result within %d s' % CALL_LIMIT)
+    elif st.startswith('timeout'):
+        fail('match_plasma_neutrality', st, 'no result within %d s' % CALL_LIMIT)
     elif st != 'ok':
         fail('match_plasma_neutrality', 'raised-' + st, str(n))
     else:
@@ -401,7 +468,7 @@ def oracle_point(ctx, case, out, stream):
                 for tag, text in check_fractions([x / tot for x in n], S, A, C, d, donor):
                     if tag in ('range', 'sum'):
                         continue
-                    fail('match_plasma_neutrality', tag, text)
+                    fail('match_plasma_neutrality', tag, text, first('cap_mn'))
         elif others > case['ne'] * (1 + 1e-9):
             if max(n) != 0.0:
                 fail('match_plasma_neutrality', 'clamp', 'given species exceed n_e but densities are %r' % (n,))
@@ -421,7 +488,7 @@ def compare_point(ctx, case, out, outs, stream):
 
     # --- matrix
     if out['cap']:
-        Am, bm, bounds = out['cap'][0]
+        Am, bm, bounds = out['cap'][0][:3]
         mod = [b2f(t) for t in mat_o.split()]
         nm = (Z + 2) * (Z + 1)
         ok = Am.shape == (Z + 2, Z + 1) and len(mod) == nm + Z + 2
@@ -444,15 +511,31 @@ def compare_point(ctx, case, out, outs, stream):
         if st != 'ok':
             continue                      # S reports it
         mod = [b2f(t) for t in o.split()]
-        sc = scale if scale is not None else max(max(abs(x) for x in mod), 1e-300)
+        sc = scale if scale is not None else max(max(abs(x) for x in mod), 1e-300) * _mn_amplification(mod)
         ctx.traces += 1
         ctx.count('K:' + name)
         if len(mod) != Z + 1 or any(math.isnan(x) for x in mod) or not all(abs(x - y) <= K_TOL * sc for x, y in zip(mod, v)):
             dev = max(abs(x - y) for x, y in zip(mod, v)) / sc if len(mod) == Z + 1 else None
+            caps = out.get({'frac': 'cap', 'fd': 'cap_fd', 'mn': 'cap_mn'}[name]) or []
+            sdev = solver_deviation(caps[0]) if len(caps) == 1 else None
+            if sdev is not None and sdev > K_TOL / 2:
+                # lsq_linear did not return the steady state of the matrix it was given (SolverSpec violated by scipy on
+                # this input): not a disagreement between model and code; S reports it when it matters
+                ctx.count('K-excused:lsq_linear-deviation')
+                continue
             broke(name, dict(line=lines[{'frac': 1, 'fd': 2, 'mn': 3}[name]][:300], model=mod, implementation=v, max_dev=dev, case=case))
         else:
             dev = max(abs(x - y) for x, y in zip(mod, v)) / sc
             ctx.extra['max_dev_' + name] = max(ctx.extra.get('max_dev_' + name, 0.0), dev)
+
+
+def _mn_amplification(n):
+    """neutrality matching divides by the mean charge: an error df in the fractions becomes df (1 + 1/z_mean) in n / n_max"""
+    tot = sum(n)
+    if not tot > 0:
+        return 1.0
+    zm = sum(z * x for z, x in enumerate(n)) / tot
+    return 1.0 + 1.0 / max(zm, 1e-12)
 
 
 # ---------------------------------------------------------------------------------------------------------------
@@ -471,7 +554,7 @@ def _val(co, *xs):
     return v
 
 
-def make_rep(env, rng, kind, co, grid):
+def make_rep(env, kind, co, grid):
     """returns (python object handed to cherab, driver tokens) for a profile with coefficients co on the grid"""
     if kind == 'scalar':
         return co[0], 's ' + f2b(co[0])
@@ -481,73 +564,78 @@ def make_rep(env, rng, kind, co, grid):
     if kind == 'arr2':
         vals = [[_val(co, x, y) for y in grid[1]] for x in grid[0]]
         return np.array(vals), 'a2 %d %d %s' % (len(grid[0]), len(grid[1]), fs([v for r in vals for v in r]))
-    if kind == 'f1':
+    if kind in ('f1', 'f1n'):
         a, b = co[0], co[1]
-        if rng.random() < 0.5:
+        if kind == 'f1':
             return env.PF1(lambda x: a + b * x), 'f1 %s %s' % (f2b(a), f2b(b))
-        return env.Arg1D() * b + a, 'f1 %s %s' % (f2b(a), f2b(b))
+        return env.Arg1D() * b + a, 'f1 %s %s' % (f2b(a), f2b(b))          # raysect-native Function1D expression
     if kind == 'f2':
         a, b, c = co
         return env.PF2(lambda x, y: a + b * x + c * y), 'f2 %s %s %s' % (f2b(a), f2b(b), f2b(c))
     raise ValueError(kind)
 
 
-def gen_profile_case(env, rng):
-    """one profile-level call: entry point, representations, case (rates), driver line, python args"""
+def gen_profile_spec(rng):
+    """JSON-able description of one profile-level call (entry point, representations, rate tables, grid)"""
     dim = rng.choice([0, 1, 1, 1, 2, 2])
     case = gen_point_case(rng, Z=rng.choice([1, 2, 3, 6, 10, 18, rng.randint(1, 18)]))
     case['species'] = []
     if case['p'] or case['q']:
         case['p'], case['q'] = rng.uniform(0, 2) / 2e4, rng.uniform(0, 2) / 1e21
     if dim == 0:
-        grid, fvtok, fv = (), 'fv0', None
-        kinds = ['scalar']
+        grid, kinds = [], ['scalar']
     elif dim == 1:
         n = rng.randint(2, 6)
         xs = sorted(rng.uniform(0, 1.1) for _ in range(n))
-        if len(set(xs)) < n:
+        if min(b - a for a, b in zip(xs, xs[1:])) < 1e-6:
             xs = [0.1 * i for i in range(n)]
-        grid = (xs,)
-        kinds = ['arr1', 'f1']
+        grid, kinds = [xs], ['arr1', 'f1', 'f1n']
     else:
         n, m = rng.randint(2, 4), rng.randint(2, 4)
-        xs = [0.05 + 0.3 * i + rng.uniform(0, 0.1) for i in range(n)]
-        ys = [0.3 * i + rng.uniform(0, 0.1) for i in range(m)]
-        grid = (xs, ys)
+        grid = [[0.05 + 0.3 * i + rng.uniform(0, 0.1) for i in range(n)], [0.3 * i + rng.uniform(0, 0.1) for i in range(m)]]
         kinds = ['arr2', 'f2']
-    reps = {}
+    reps, coefs = {}, {}
     for name, base in (('ne', case['ne']), ('te', case['te']), ('nd', case['nD'] or case['ne'] * 0.05), ('dens', case['dens'])):
-        reps[name] = (rng.choice(kinds), _affine(rng, base, max(dim, 1) if dim else 0))
+        reps[name] = rng.choice(kinds)
+        coefs[name] = _affine(rng, base, dim)
     donor_given = case['donor'] and rng.random() < 0.85
-    any_fn = any(k in ('f1', 'f2') for k, _ in (reps['ne'], reps['te'])) or (donor_given and reps['nd'][0] in ('f1', 'f2'))
-    need_fv_dens = reps['dens'][0] in ('f1', 'f2')
+    isfn = lambda k: k in ('f1', 'f1n', 'f2')      # noqa
     which = rng.choice(['frac', 'fd'])
-    use_interp = dim > 0 and rng.random() < 0.4
-    give_fv = dim > 0 and (any_fn or (which == 'fd' and need_fv_dens) or use_interp or rng.random() < 0.3)
-    if dim == 1:
-        fvtok = 'fv1 %d %s' % (len(grid[0]), fs(grid[0])) if give_fv else 'fv0'
-        fv = np.array(grid[0]) if give_fv else None
-    elif dim == 2:
-        fvtok = 'fv2 %d %s %d %s' % (len(grid[0]), fs(grid[0]), len(grid[1]), fs(grid[1])) if give_fv else 'fv0'
-        fv = (np.array(grid[0]), np.array(grid[1])) if give_fv else None
-        if fv is not None and rng.random() < 0.5:
+    interp = dim > 0 and rng.random() < 0.4
+    any_fn = isfn(reps['ne']) or isfn(reps['te']) or (donor_given and isfn(reps['nd'])) or (which == 'fd' and isfn(reps['dens']))
+    give_fv = dim > 0 and (any_fn or interp or rng.random() < 0.3)
+    return dict(case=case, dim=dim, grid=grid, reps=reps, coefs=coefs, which=which, interp=interp, give_fv=give_fv,
+                fv_as_list=(dim == 2 and rng.random() < 0.5), donor_given=donor_given)
+
+
+def build_profile(env, spec):
+    """python objects + driver line for a profile spec"""
+    pc = dict(spec)
+    case, dim, grid = spec['case'], spec['dim'], spec['grid']
+    fvtok, fv = 'fv0', None
+    if dim == 1 and spec['give_fv']:
+        fvtok, fv = 'fv1 %d %s' % (len(grid[0]), fs(grid[0])), np.array(grid[0])
+    elif dim == 2 and spec['give_fv']:
+        fvtok = 'fv2 %d %s %d %s' % (len(grid[0]), fs(grid[0]), len(grid[1]), fs(grid[1]))
+        fv = (np.array(grid[0]), np.array(grid[1]))
+        if spec['fv_as_list']:
             fv = list(fv)
     objs, toks = {}, {}
-    for name, (k, co) in reps.items():
-        objs[name], toks[name] = make_rep(env, rng, k, co, grid)
-    dtok = toks['nd'] if donor_given else 'dnone'
-    Z = case['Z']
+    for name in ('ne', 'te', 'nd', 'dens'):
+        objs[name], toks[name] = make_rep(env, spec['reps'][name], spec['coefs'][name], grid)
+    dtok = toks['nd'] if spec['donor_given'] else 'dnone'
     line = '%s %d %s %s %s %s %s %s %s %s %s %s' % (
-        'pfrac' if which == 'frac' else 'pfd', Z, '1' if case['donor'] else '0', f2b(case['p']), f2b(case['q']),
+        'pfrac' if spec['which'] == 'frac' else 'pfd', case['Z'], '1' if case['donor'] else '0', f2b(case['p']), f2b(case['q']),
         fs(case['s']), fs(case['a']), fs(c_eff(case)), fvtok, toks['ne'], toks['te'], dtok)
-    if which == 'fd':
+    if spec['which'] == 'fd':
         line += ' ' + toks['dens']
-    return dict(case=case, dim=dim, grid=grid, reps={k: v[0] for k, v in reps.items()}, which=which, interp=use_interp,
-                fv=fv, objs=objs, donor_given=donor_given, line=line, coefs={k: v[1] for k, v in reps.items()})
+    pc.update(fv=fv, objs=objs, line=line)
+    return pc
 
 
 def exec_profile(env, pc):
-    """call the implementation; returns (status, shape, flat list of per-index vectors, (n,t) points seen)"""
+    """call the implementation; returns (entry name, status, shape | message, [index, charge] array, (n,t) points seen,
+    captured lsq_linear calls)"""
     ib = env.ib
     case = pc['case']
     el = env.element(case)
@@ -560,12 +648,12 @@ def exec_profile(env, pc):
         if pc['which'] == 'frac':
             fn = ib.interpolators1d_fractional if dim == 1 else ib.interpolators2d_fractional
             args = (ad, el, pc['fv'], o['ne'], o['te'], donor, nd, case['dq'])
-            name = fn.__name__
         else:
             fn = ib.interpolators1d_from_elementdensity if dim == 1 else ib.interpolators2d_from_elementdensity
             args = (ad, el, pc['fv'], o['dens'], o['ne'], o['te'], donor, nd, case['dq'])
-            name = fn.__name__
+        name = fn.__name__
         st, r = guarded(fn, *args)
+        caps = list(CAP)
         if st == 'ok':
             g = pc['grid']
             if dim == 1:
@@ -579,14 +667,15 @@ def exec_profile(env, pc):
         else:
             name = 'from_elementdensity'
             st, r = guarded(ib.from_elementdensity, ad, el, o['dens'], o['ne'], o['te'], donor, nd, case['dq'], free_variable=pc['fv'])
+        caps = list(CAP)
     if st != 'ok':
-        return name, st, r, None, None
+        return name, st, r, None, None, caps
     Z = case['Z']
     if sorted(r.keys()) != list(range(Z + 1)):
-        return name, 'bad-keys', str(list(r.keys())), None, None
+        return name, 'bad-keys', str(list(r.keys())), None, None, caps
     shape = tuple(np.asarray(r[0]).shape)
     flat = np.stack([np.asarray(r[z], dtype=float).reshape(-1) for z in range(Z + 1)], axis=1)   # [index, charge]
-    return name, 'ok', shape, flat, list(ad.points)
+    return name, 'ok', shape, flat, list(ad.points), caps
 
 
 def truth_at(pc, k):
@@ -605,98 +694,130 @@ def truth_at(pc, k):
     return v('dens'), v('ne'), v('te'), (v('nd') if pc['donor_given'] else 0.0)
 
 
-def run_profiles(ctx, env, n):
-    rng = ctx.rng
-    pcs = [gen_profile_case(env, rng) for _ in range(n)]
-    outs = ctx.driver([pc['line'] for pc in pcs])
-    for pc, o in zip(pcs, outs):
-        case = pc['case']
-        Z = case['Z']
-        name, st, shape, flat, points = exec_profile(env, pc)
-        key = ('profile', name, pc['dim'], tuple(sorted(pc['reps'].items())), case['donor'], pc['donor_given'], pc['fv'] is not None)
-        ctx.case(key=key, sample=dict(stream='profile', entry=name, dim=pc['dim'], representations=pc['reps'], donor=case['donor'],
-                                      donor_density_given=pc['donor_given'], free_variable=pc['fv'] is not None, Z=Z)
-                 if rng.random() < 0.05 else None)
-        ctx.count('profile:%s:dim%d' % (name, pc['dim']))
-        for k_, v_ in pc['reps'].items():
-            if k_ in ('ne', 'te') or (k_ == 'nd' and pc['donor_given']) or (k_ == 'dens' and pc['which'] == 'fd'):
-                ctx.count('rep:%s:%s' % (k_, v_))
-        desc = dict(kind='profile', entry=name, line=pc['line'][:600], reps=pc['reps'], coefs=pc['coefs'], grid=pc['grid'],
-                    case=case, donor_given=pc['donor_given'], free_variable=pc['fv'] is not None)
-        if o == 'err':
-            # the model says the combination raises: a scalar donor density against array profiles etc.
-            ctx.traces += 1
-            ctx.count('K:err')
-            if st == 'ok':
-                ctx.disagreements += 1
-                ctx.broke('correspondence', 'C09 stream err', dict(note='model: raises, implementation: returned', **desc))
-            continue
-        if o.startswith('bad'):
-            raise RuntimeError('driver could not parse: %s -> %s' % (pc['line'][:200], o))
-        if st == 'timeout':
-            ctx.fail('C09:%s:timeout' % name, '%s gave no result within %d s' % (name, CALL_LIMIT), desc)
-            continue
-        if st != 'ok':
-            # the model normalised the inputs fine but the implementation raised: inputs of the documented kinds
-            ctx.fail('C09:%s:raised-%s:%s' % (name, st, '+'.join(sorted(set(pc['reps'].values())))),
-                     '%s raised %s: %s for representations %r' % (name, st, shape, pc['reps']), desc)
-            continue
+def profile_spec_of(pc):
+    return {k: pc[k] for k in ('case', 'dim', 'grid', 'reps', 'coefs', 'which', 'interp', 'give_fv', 'fv_as_list', 'donor_given')}
+
+
+def check_profile(ctx, env, pc, o, compare=True):
+    """K + S for one profile-level call; `o` is the driver's output line for pc['line'] (None: S only).
+    Returns the number of property problems found."""
+    case = pc['case']
+    Z = case['Z']
+    nprob = 0
+    name, st, shape, flat, points, caps = exec_profile(env, pc)
+    ctx.count('profile:%s:dim%d' % (name, pc['dim']))
+    for k_, v_ in pc['reps'].items():
+        if k_ in ('ne', 'te') or (k_ == 'nd' and pc['donor_given']) or (k_ == 'dens' and pc['which'] == 'fd'):
+            ctx.count('rep:%s:%s' % (k_, v_))
+    desc = dict(kind='profile', entry=name, spec=profile_spec_of(pc))
+    compare = compare and o is not None
+    if compare and o == 'err':
+        # the model says the combination raises (shape mismatch etc.)
+        ctx.traces += 1
+        ctx.count('K:err')
+        if st == 'ok':
+            ctx.disagreements += 1
+            ctx.broke('correspondence', 'C09 stream err', dict(note='model: raises, implementation: returned', **desc))
+        return 0
+    if compare and o.startswith('bad'):
+        raise RuntimeError('driver could not parse: %s -> %s' % (pc['line'][:200], o))
+    if st.startswith('timeout'):
+        ctx.count('S-fail:timeout')
+        ctx.fail(SIG_NOTERM if st == 'timeout-lsq' else 'C09:%s:timeout' % name,
+                 '%s gave no result within %d s%s (Z=%d, representations %r)' % (
+                     name, CALL_LIMIT, ' (interrupted inside scipy.optimize._lsq: the backtracking loop of lsq_linear does not terminate)'
+                     if st == 'timeout-lsq' else '', Z, pc['reps']), desc)
+        return 1
+    if st != 'ok':
+        # the inputs are of the documented kinds and consistent shapes, yet the implementation raised
+        ctx.fail('C09:%s:raised-%s:%s' % (name, st, '+'.join(sorted(set(pc['reps'].values())))),
+                 '%s raised %s: %s for representations %r' % (name, st, shape, pc['reps']), desc)
+        return 1
+    npts = flat.shape[0]
+    per = Z + 3
+    mod = None
+    if compare:
         t = o.split()
         nd_ = int(t[0])
         mshape = tuple(int(x) for x in t[1:1 + nd_])
         mod = [b2f(x) for x in t[1 + nd_:]]
-        npts = int(np.prod(mshape)) if mshape else 1
-        per = Z + 3
         ctx.traces += 1
         ctx.count('K:' + pc['line'].split()[0])
-        if tuple(shape) != mshape or len(mod) != npts * per or flat.shape[0] != npts:
+        if tuple(shape) != mshape or len(mod) != npts * per:
             ctx.disagreements += 1
             ctx.broke('correspondence', 'C09 stream profile-shape', dict(model_shape=mshape, implementation_shape=shape, **desc))
-            continue
-        agree = True
-        worst = 0.0
-        direct = None
-        for k in range(npts):
+            mod = None
+    agree = True
+    worst = 0.0
+    direct = None
+    for k in range(npts):
+        dens_k, ne_k, te_k, nd_k = truth_at(pc, k)
+        sc = dens_k if pc['which'] == 'fd' else 1.0
+        rec = caps[k] if len(caps) == npts else None
+        if mod is not None:
             row = mod[k * per:(k + 1) * per]
             mne, mte, mf = row[0], row[1], row[2:]
-            dens_k, ne_k, te_k, nd_k = truth_at(pc, k)
-            sc = dens_k if pc['which'] == 'fd' else 1.0
             if points and len(points) % npts == 0:
-                # coef_ion[0] is evaluated a fixed number of times per point (twice: first row + next row)
+                # coef_ion[0] is evaluated a fixed number of times per point (first row + the row below)
                 step = len(points) // npts
                 if not all(close(pq[0], mne, 1e-12) and close(pq[1], mte, 1e-12) for pq in points[k * step:(k + 1) * step]):
                     agree = False
             else:
                 agree = False
             dv = max(abs(x - y) for x, y in zip(mf, flat[k])) / sc
-            worst = max(worst, dv)
             if not dv <= K_TOL:
-                agree = False
-            # S at this index, with the harness' own evaluation of the profiles
-            cs = dict(case, ne=ne_k, te=te_k, nD=nd_k)
-            S, A, C = rates_at(cs, ne_k, te_k)
-            f = [x / sc for x in flat[k]]
-            for tag, text in check_fractions(f, S, A, C, nd_k / ne_k, case['donor']):
-                if tag == 'range' and pc['which'] == 'fd':
-                    continue
-                signame = name
-                if tag == 'donor-cx-rates-discarded' and pc['interp']:
-                    # attribute to the direct entry point only if it shows the same defect on the same input
-                    if direct is None:
-                        direct = exec_profile(env, dict(pc, interp=False))
-                    if direct[1] == 'ok' and direct[3].shape == flat.shape and any(
-                            t2 == tag for t2, _ in check_fractions([x / sc for x in direct[3][k]], S, A, C, nd_k / ne_k, case['donor'])):
-                        signame = _base_entry(name)
-                ctx.count('S-fail:C09:%s:%s' % (signame, tag))
-                ctx.fail('C09:%s:%s' % (signame, tag),
-                         '%s at index %d (n_e=%.4g, T_e=%.4g, n_D=%.4g, representations %r): %s' % (name, k, ne_k, te_k, nd_k, pc['reps'], text),
-                         dict(index=k, **desc))
+                sdev = solver_deviation(rec)
+                if sdev is not None and sdev > K_TOL / 2:
+                    ctx.count('K-excused:lsq_linear-deviation')
+                else:
+                    agree = False
+                    worst = max(worst, dv)
+            else:
+                worst = max(worst, dv)
+        # S at this index, with the harness' own evaluation of the profiles
+        cs = dict(case, ne=ne_k, te=te_k, nD=nd_k)
+        S, A, C = rates_at(cs, ne_k, te_k)
+        d = nd_k / ne_k
+        f = [x / sc for x in flat[k]]
+        for tag, text in check_fractions(f, S, A, C, d, case['donor']):
+            if tag == 'range' and pc['which'] == 'fd':
+                continue
+            sig = 'C09:%s:%s' % (name, tag)
+            if tag in ('balance', 'sum') and solver_at_fault(rec, S, A, C, d, case['donor']):
+                sig = SIG_INACC
+                text += '; the matrix handed to lsq_linear has the right steady state, the returned vector is off by %.3g' % solver_deviation(rec)
+            elif tag == 'donor-cx-rates-discarded' and pc['interp']:
+                # attribute to the direct entry point only if it shows the same defect on the same input
+                if direct is None:
+                    direct = exec_profile(env, dict(pc, interp=False))
+                if direct[1] == 'ok' and direct[3].shape == flat.shape and any(
+                        t2 == tag for t2, _ in check_fractions([x / sc for x in direct[3][k]], S, A, C, d, case['donor'])):
+                    sig = 'C09:%s:%s' % (_base_entry(name), tag)
+            nprob += 1
+            ctx.count('S-fail:' + sig)
+            ctx.fail(sig, '%s at index %d (n_e=%.4g, T_e=%.4g, n_D=%.4g, representations %r): %s' % (name, k, ne_k, te_k, nd_k, pc['reps'], text),
+                     dict(index=k, **desc))
+    if mod is not None:
         ctx.extra['max_dev_profile'] = max(ctx.extra.get('max_dev_profile', 0.0), worst)
         if not agree:
             ctx.disagreements += 1
             ctx.count('disagreement:profile')
             ctx.broke('correspondence', 'C09 stream ' + pc['line'].split()[0],
                       dict(max_dev=worst, model=mod[:per], implementation=flat[0].tolist(), points=(points or [])[:2], **desc))
+    return nprob
+
+
+def run_profiles(ctx, env, n):
+    rng = ctx.rng
+    pcs = [build_profile(env, gen_profile_spec(rng)) for _ in range(n)]
+    outs = ctx.driver([pc['line'] for pc in pcs])
+    for pc, o in zip(pcs, outs):
+        case = pc['case']
+        key = ('profile', pc['which'], pc['interp'], pc['dim'], tuple(sorted(pc['reps'].items())), case['donor'], pc['donor_given'], pc['give_fv'])
+        ctx.case(key=key, sample=dict(stream='profile', which=pc['which'], through_interpolators=pc['interp'], dim=pc['dim'],
+                                      representations=pc['reps'], donor=case['donor'], donor_density_given=pc['donor_given'],
+                                      free_variable=pc['give_fv'], Z=case['Z']) if rng.random() < 0.05 else None)
+        check_profile(ctx, env, pc, o)
 
 
 def _base_entry(name):
@@ -782,7 +903,7 @@ def run_entry_agreement(ctx, env, n):
         spco = [[_affine(rng, case['ne'] * rng.uniform(0.001, 0.03), dim) for _ in range(rng.randint(2, 4))] for _ in range(nsp)]
         fk = 'f1' if dim == 1 else 'f2'
         ak = 'arr1' if dim == 1 else 'arr2'
-        rep = lambda c: make_rep(env, rng, rng.choice([fk, ak]), c, grid)[0]      # noqa
+        rep = lambda c: make_rep(env, rng.choice([fk, ak]), c, grid)[0]      # noqa
         fv = np.array(xs) if dim == 1 else (np.array(xs), np.array(ys))
         ne_o, te_o, nd_o, dens_o = rep(co['ne']), rep(co['te']), rep(co['nd']), rep(co['dens'])
         nd_arg = nd_o if case['donor'] else None
@@ -791,25 +912,26 @@ def run_entry_agreement(ctx, env, n):
             if rng.random() < 0.5:
                 species.append({i: rep(c) for i, c in enumerate(sp)})
             else:
-                species.append(np.array([make_rep(env, rng, ak, c, grid)[0] for c in sp]))
+                species.append(np.array([make_rep(env, ak, c, grid)[0] for c in sp]))
         # ---- direct match_plasma_neutrality: K per index
         st, r = guarded(ib.match_plasma_neutrality, env.Mock(case), el, species, ne_o, te_o, donor, nd_arg, case['dq'], free_variable=fv)
         desc = dict(kind='entry-agreement', dim=dim, grid=grid, coefs=co, species_coefs=spco, case=case)
         ctx.case(key=('match-profile', dim, case['Z'], case['donor'], it), sample=None)
         ctx.count('profile:match_plasma_neutrality:dim%d' % dim)
         if st != 'ok':
-            ctx.fail('C09:match_plasma_neutrality:%s' % ('timeout' if st == 'timeout' else 'raised-' + st),
+            ctx.fail(SIG_NOTERM if st == 'timeout-lsq' else 'C09:match_plasma_neutrality:%s' % ('timeout' if st == 'timeout' else 'raised-' + st),
                      'match_plasma_neutrality (profile level) %s: %s' % (st, r), desc)
             continue
         pts = [(x,) for x in xs] if dim == 1 else [(x, y) for x in xs for y in ys]
         Z = case['Z']
+        caps = list(CAP)
         direct = np.stack([np.asarray(r[z], dtype=float).reshape(-1) for z in range(Z + 1)], axis=1)
         for k, pt in enumerate(pts):
             ne_k, te_k = _val(co['ne'], *pt), _val(co['te'], *pt)
             nd_k = _val(co['nd'], *pt) if case['donor'] else 0.0
             cs = dict(case, ne=ne_k, te=te_k, nD=nd_k, species=[[_val(c, *pt) for c in sp] for sp in spco])
             lines.append(point_lines(cs)[3])
-            todo.append((cs, direct[k].tolist(), desc, k))
+            todo.append((cs, direct[k].tolist(), desc, k, caps[k] if len(caps) == len(pts) else None))
         # ---- derived entry points
         checks = []
         if dim == 1:
@@ -831,7 +953,7 @@ def run_entry_agreement(ctx, env, n):
             st, fm = guarded(mk)
             ctx.count('entry:' + name)
             if st != 'ok':
-                ctx.fail('C09:%s:%s' % (name, 'timeout' if st == 'timeout' else 'raised-' + st), '%s: %s %s' % (name, st, fm), desc)
+                ctx.fail(SIG_NOTERM if st == 'timeout-lsq' else 'C09:%s:%s' % (name, 'timeout' if st == 'timeout' else 'raised-' + st), '%s: %s %s' % (name, st, fm), desc)
                 continue
             sc = float(np.max(np.abs(ref))) or 1.0
             dev = max(abs(ev(fm[z], pt) - ref[k][z]) for k, pt in enumerate(pts_) for z in range(Z + 1)) / sc
@@ -843,18 +965,22 @@ def run_entry_agreement(ctx, env, n):
             _equilibrium_checks(ctx, env, case, el, donor, fv, ne_o, te_o, nd_arg, dens_o, species, desc, Interpolator1DArray)
     if lines:
         outs = ctx.driver(lines)
-        for (cs, impl, desc, k), o in zip(todo, outs):
+        for (cs, impl, desc, k, rec), o in zip(todo, outs):
             mod = [b2f(t) for t in o.split()]
-            sc = max(max(abs(x) for x in mod), 1e-300)
+            sc = max(max(abs(x) for x in mod), 1e-300) * _mn_amplification(mod)
             ctx.traces += 1
             ctx.count('K:mn-profile')
             if len(mod) != len(impl) or not all(abs(x - y) <= K_TOL * sc for x, y in zip(mod, impl)):
-                ctx.disagreements += 1
-                ctx.broke('correspondence', 'C09 stream mn-profile', dict(index=k, model=mod, implementation=impl, **desc))
-            _oracle_match_only(ctx, cs, impl, desc, k)
+                sdev = solver_deviation(rec)
+                if sdev is not None and sdev > K_TOL / 2:
+                    ctx.count('K-excused:lsq_linear-deviation')
+                else:
+                    ctx.disagreements += 1
+                    ctx.broke('correspondence', 'C09 stream mn-profile', dict(index=k, model=mod, implementation=impl, **desc))
+            _oracle_match_only(ctx, cs, impl, desc, k, rec)
 
 
-def _oracle_match_only(ctx, cs, n, desc, k):
+def _oracle_match_only(ctx, cs, n, desc, k, rec=None):
     Z = cs['Z']
     S, A, C = rates_at(cs, cs['ne'], cs['te'])
     d = cs['nD'] / cs['ne']
@@ -870,8 +996,11 @@ def _oracle_match_only(ctx, cs, n, desc, k):
         for tag, text in check_fractions([x / tot for x in n], S, A, C, d, cs['donor']):
             if tag in ('range', 'sum'):
                 continue
-            ctx.count('S-fail:C09:match_plasma_neutrality:' + tag)
-            ctx.fail('C09:match_plasma_neutrality:' + tag, 'profile index %d (n_e=%.4g, n_D=%.4g): %s' % (k, cs['ne'], cs['nD'], text), dict(index=k, **desc))
+            sig = 'C09:match_plasma_neutrality:' + tag
+            if tag == 'balance' and solver_at_fault(rec, S, A, C, d, cs['donor']):
+                sig = SIG_INACC
+            ctx.count('S-fail:' + sig)
+            ctx.fail(sig, 'match_plasma_neutrality, profile index %d (n_e=%.4g, n_D=%.4g): %s' % (k, cs['ne'], cs['nD'], text), dict(index=k, **desc))
 
 
 def _equilibrium_checks(ctx, env, case, el, donor, psin, ne_o, te_o, nd_arg, dens_o, species, desc, Interp):
@@ -905,7 +1034,7 @@ def _equilibrium_checks(ctx, env, case, el, donor, psin, ne_o, te_o, nd_arg, den
         ctx.count('entry:' + name)
         ctx.case(key=(name, case['Z'], case['donor'], f2b(case['ne'])))
         if st != 'ok':
-            ctx.fail('C09:%s:%s' % (name, 'timeout' if st == 'timeout' else 'raised-' + st), '%s: %s %s' % (name, st, m), desc)
+            ctx.fail(SIG_NOTERM if st == 'timeout-lsq' else 'C09:%s:%s' % (name, 'timeout' if st == 'timeout' else 'raised-' + st), '%s: %s %s' % (name, st, m), desc)
             continue
         if st2 != 'ok':
             continue
@@ -953,17 +1082,20 @@ def load_corpus():
 
 def run(ctx):
     ctx.rule = ('point cases: element Z in 1..18 (or deuterium), rate tables drawn log-uniformly within +-1 decade or from an ADAS-like '
-                'monotone family, constant or (n_e,T_e)-dependent, n_e in 1e17..1e21, T_e in 1..1e4, donor present/absent, n_D/n_e in 1e-4..1, '
-                'donor charge 0/1, 0-3 other species (12% exceeding n_e); profile cases: every combination of scalar / 1-D / 2-D ndarray / '
-                'Function1D / Function2D (+free variable) for n_e, T_e, n_D (or absent) and element density through the direct, interpolator and '
-                'equilibrium-mapped entry points; a wide-range stream (rates over 5-7 decades) for the solver; distinct = (stream, entry point, '
-                'Z, donor, representations, n_e bit pattern); non-trivial = the implementation was actually called and its numbers were checked')
+                'monotone family (total range <= 1.5 decades), constant or (n_e,T_e)-dependent, n_e in 1e17..1e21, T_e in 1..1e4, donor '
+                'present/absent, n_D/n_e in 1e-4..1 (or 0), donor charge 0/1, 0-3 other species (12% exceeding n_e); profile cases: every '
+                'combination of scalar / 1-D / 2-D ndarray / Function1D (python and raysect-native) / Function2D (+free variable, tuple or list) '
+                'for n_e, T_e, n_D (or absent) and element density through the direct, interpolator and equilibrium-mapped entry points; '
+                'malformed shape combinations; a wide-range stream (rates over 6-10 decades) for the least-squares solver; corpus first; '
+                'distinct = (stream, entry point, Z, donor, representations, n_e bit pattern); non-trivial = the implementation was actually '
+                'called and its numbers were checked by the oracle')
     ctx.trusted += ['scipy.optimize.lsq_linear is a parameter of the model (SolverSpec: zero-residual point inside the bounds when one exists); '
                     'its convergence is observed, not proved (wide-range stream)',
                     'raysect Interpolator1DArray/2DArray, EFITEquilibrium.map3d, AxisymmetricMapper (compared against, not modelled)',
                     'harness/translators/ionbalance.py (syntactic; its table is validated by the fd/mn correspondence streams)']
     ctx.assumptions += ['rates are positive and finite; n_e > 0; n_D >= 0',
                         'correspondence tolerance %.0e absolute on fractions (relative to the element density for densities); oracle threshold %.0e' % (K_TOL, S_TOL)]
+    refuted = None
     # 1. translator
     flags, problems, changed = tr.run()
     ctx.extra['generated_flags'] = flags
@@ -971,29 +1103,44 @@ def run(ctx):
         ctx.broke('translator', 'coef_tcx selection not recognised in ionisation_balance.py', problems)
     # 2. T
     ctx.lean_check(['Cherab.Props.C09'], 'Cherab/Audit/C09.lean')
+    if ctx.tier == 'thorough':
+        import subprocess
+        from harness.vlib.util import LEAN
+        r = subprocess.run(['lake', 'env', 'leanchecker', 'Cherab.Props.C09'], cwd=LEAN, stdout=subprocess.PIPE,
+                           stderr=subprocess.STDOUT, text=True, timeout=1800)
+        ctx.extra['leanchecker'] = 'ok' if r.returncode == 0 else 'failed'
+        if r.returncode != 0:
+            ctx.broke('theorem', 'leanchecker Cherab.Props.C09', r.stdout[-1500:])
     if not problems and not (flags.get('fd') and flags.get('mn')):
         # for the current tree `entry_points_agree_current_tree` is the *refutation*: the model discards a supplied coef_tcx.
-        ctx.broke('theorem', 'entry_points_agree (refuted for the tree as it is: entry_points_agree_current_tree = DisagreeSomewhere)',
-                  'generated flags %r: _from_element_density_point / _match_element_density_point discard the coef_tcx passed by '
-                  '_from_elementdensity / _match_plasma_neutrality; Lean witness Z=1, all rates 1, n_e=n_D=1' % flags)
+        refuted = dict(kind='theorem', name='entry_points_agree (refuted for the tree as it is: entry_points_agree_current_tree = DisagreeSomewhere)',
+                       detail='generated flags %r: _from_element_density_point / _match_element_density_point discard the coef_tcx passed by '
+                              '_from_elementdensity / _match_plasma_neutrality; Lean witness Z=1, all rates 1, n_e=n_D=1' % flags)
+        ctx.broken.append(refuted)
+        ctx.log('BROKEN theorem', refuted['name'], refuted['detail'])
     env = _Env.get()
     # 3. corpus first
     for name, d in load_corpus():
         ctx.count('corpus')
-        run_point_cases(ctx, env, [d['case']], 'corpus:' + name, compare=not d.get('oracle_only'))
+        if 'spec' in d:
+            pc = build_profile(env, d['spec'])
+            ctx.case(key=('corpus', name))
+            check_profile(ctx, env, pc, ctx.driver([pc['line']])[0], compare=not d.get('oracle_only'))
+        else:
+            run_point_cases(ctx, env, [d['case']], 'corpus:' + name, compare=not d.get('oracle_only'))
     # 4. the Lean witness replayed on the implementation (all rates 1e-14 instead of 1 to stay in a physical range)
     wit = dict(Z=1, s=[1e-14], a=[1e-14], c=[1e-14], p=0.0, q=0.0, ne=1e19, te=10.0, nD=1e19, donor=True, dq=0, dens=1e17,
                species=[], family='witness', isotope=False)
     run_point_cases(ctx, env, [wit], 'witness')
     # 5. point stream
-    cases = [gen_point_case(ctx.rng, Z=(i % 18) + 1 if i < 36 else None) for i in range(ctx.n(150, 2500))]
+    cases = [gen_point_case(ctx.rng, Z=(i % 18) + 1 if i < 36 else None) for i in range(ctx.n(150, 8000))]
     run_point_cases(ctx, env, cases, 'point')
     # 6. profile stream, malformed combinations, derived entry points
-    run_profiles(ctx, env, ctx.n(120, 1500))
+    run_profiles(ctx, env, ctx.n(120, 4000))
     run_malformed(ctx, env)
-    run_entry_agreement(ctx, env, ctx.n(16, 120))
+    run_entry_agreement(ctx, env, ctx.n(16, 300))
     # 7. solver robustness on wide-range rate tables (S only)
-    wide = [gen_point_case(ctx.rng, wide=True) for _ in range(ctx.n(40, 300))]
+    wide = [gen_point_case(ctx.rng, wide=True) for _ in range(ctx.n(40, 500))]
     for c in wide:
         c['donor'] = False
         c['nD'] = 0.0
@@ -1005,6 +1152,10 @@ def run(ctx):
         ctx.count('point:wide')
         nw += oracle_point(ctx, c, out, 'wide')
     ctx.extra['wide_stream_failures'] = nw
+    # the refuted theorem is explained by a failing input listed in known_findings.json (if the main author lists it)
+    if refuted is not None and any(k['signature'].endswith(':donor-cx-rates-discarded') for k in ctx.known_hits) \
+            and not any(f['signature'].endswith(':donor-cx-rates-discarded') for f in ctx.failing):
+        refuted['explained_by_known'] = True
 
 
 def exec_point_frac_only(env, case):
@@ -1017,7 +1168,7 @@ def exec_point_frac_only(env, case):
                         tcx_donor_n=case['nD'] if case['donor'] else None, tcx_donor_charge=case['dq'])
     finally:
         _LIMIT[0] = CALL_LIMIT
-    return dict(frac=(st, _vec(r, case['Z']) if st == 'ok' else r), cap=[], queries=list(ad.queries),
+    return dict(frac=(st, _vec(r, case['Z']) if st == 'ok' else r), cap=list(CAP), queries=list(ad.queries),
                 fd=('skip', None), mn=('skip', None), limit=WIDE_LIMIT)
 
 
@@ -1028,6 +1179,11 @@ def replay(ctx, path):
     env = _Env.get()
     if rp.get('kind') == 'point' and 'case' in rp:
         n = run_point_cases(ctx, env, [rp['case']], 'replay', compare=False)
+        print('replay: %d problem(s) reproduced on the current tree' % n)
+        return ctx.finish()
+    if rp.get('kind') == 'profile' and 'spec' in rp:
+        n = check_profile(ctx, env, build_profile(env, rp['spec']), None, compare=False)
+        ctx.case(key=('replay', 'profile'))
         print('replay: %d problem(s) reproduced on the current tree' % n)
         return ctx.finish()
     run(ctx)
